@@ -420,12 +420,27 @@ def cmdline_cases():
         "mismatched-lists": (["N = NormalizeCat(", "    InFieldName = R1,", "    RawValues = [1, 2, 3],", "    NormalValues = [0, 1],", "    DefaultNormalValue = 0", ")"], None),
         "empty-inputs": (["S = Sum(", "    InFieldNames = [],", "    Metadata = [note: x]", ")"], "EmptyInputs"),
         "mismatched-weights": (["W = WeightedSum(", "    InFieldNames = [R1, R2],", "    Weights = [1, 2, 3]", ")"], None),
+        # (these two carry the line of one argument, looked up in the command's own table of argument lines)
+        "duplicate-raw-values": (["N = NormalizeCat(", "    InFieldName = R1,", "    RawValues = [1, 1],", "    NormalValues = [0, 1],", "    DefaultNormalValue = 0", ")"], "DuplicateRawValues"),
+        "duplicate-raw-values-fz": (["N = CvtToFuzzyCat(", "    InFieldName = R1,", "    RawValues = [2, 2],", "    FuzzyValues = [0, 1],", "    DefaultFuzzyValue = 0", ")"], "DuplicateRawValues"),
+    }
+    # a valid twin of the faulty command further down (same class, same argument names, other lines): a command's lines are its own
+    twins = {
+        "equal-thresholds": ["F2 = CvtToFuzzy(", "    InFieldName = R2,", "", "    TrueThreshold = 5,", "    FalseThreshold = 1,", "    Metadata = [note: y]", ")"],
+        "mismatched-lists": ["N2 = NormalizeCat(", "    InFieldName = R2,", "", "    RawValues = [1, 2],", "    NormalValues = [0, 1],", "    DefaultNormalValue = 0", ")"],
+        "empty-inputs": ["S2 = Sum(", "", "    InFieldNames = [R1, R2],", "    Metadata = [note: y]", ")"],
+        "mismatched-weights": ["W2 = WeightedSum(", "", "    InFieldNames = [R1, R2],", "    Weights = [1, 2]", ")"],
+        "duplicate-raw-values": ["N2 = NormalizeCat(", "    InFieldName = R2,", "", "", "    RawValues = [1, 2],", "    NormalValues = [0, 1],", "    DefaultNormalValue = 0", ")"],
+        "duplicate-raw-values-fz": ["N2 = CvtToFuzzyCat(", "    InFieldName = R2,", "", "", "    RawValues = [1, 2],", "    FuzzyValues = [0, 1],", "    DefaultFuzzyValue = 0", ")"],
     }
     cases = []
     for label, (body, exc) in bodies.items():
         lines = pre + [""] + body + ["", "OUT = EEMSWrite(OutFileName = out.csv, OutFieldNames = [R1])"]
         start = len(pre) + 2
         cases.append({"files": {"input.csv": CSV}, "source": "\n".join(lines) + "\n", "label": "command-line:" + label, "cmd_lines": [start], "exc": exc,
+                      "arg_lines": list(range(start, start + len(body)))})
+        lines2 = pre + [""] + body + [""] + twins[label] + ["", "OUT = EEMSWrite(OutFileName = out.csv, OutFieldNames = [R1])"]
+        cases.append({"files": {"input.csv": CSV}, "source": "\n".join(lines2) + "\n", "label": "command-line:" + label + "+twin", "cmd_lines": [start], "exc": exc,
                       "arg_lines": list(range(start, start + len(body)))})
     # a cycle: the error names a command on the cycle
     cyc = ["A = Copy(", "    InFieldName = B", ")", "", "B = Copy(", "    InFieldName = A,", "    Metadata = [note: x]", ")"]
@@ -436,7 +451,7 @@ def cmdline_cases():
              "    Metadata = [note: x]", ")"]
     cases.append({"files": {"input.csv": CSV, "short.csv": "a\n1\n2\n"}, "source": "\n".join(mixed) + "\n", "label": "command-line:mixed-shapes", "cmd_lines": [4],
                   "exc": "MixedArrayShapes", "arg_lines": [5, 6, 7, 8]})
-    return cases + [dict(c, mode="cli", mark_lines=c["cmd_lines"]) for c in cases]
+    return cases + [dict(c, mode="cli", mark_lines=c["cmd_lines"] + (c["arg_lines"] if c.get("exc") == "DuplicateRawValues" else [])) for c in cases]
 
 
 def judge_cmdline(case, o):
@@ -485,6 +500,13 @@ def cyclic_model_cases(tier="quick"):
         "cycle-apart-from-valid-chain": [R, "S = Copy(InFieldName = R)", "A = Copy(InFieldName = B)", "B = Copy(InFieldName = A)"],
         "fuzzy-cycle": [R, "F = CvtToFuzzy(InFieldName = R)", "X = FuzzyOr(InFieldNames = [F, Y])", "Y = FuzzyNot(InFieldName = X)"],
         "printvars-cycle": ["P = PrintVars(InFieldNames = [Q])", "Q = PrintVars(InFieldNames = [P])"],
+        "printvars-self": ["P = PrintVars(InFieldNames = [P])"],
+        # the closing edge carries no numeric weight in the result: it is a reference all the same
+        "weight-zero-self": [R, "A = WeightedSum(InFieldNames = [R, A], Weights = [1, 0])"],
+        "weight-zero-2cycle": [R, "A = WeightedSum(InFieldNames = [R, B], Weights = [1, 0.0])", "B = Copy(InFieldName = A)"],
+        "weighted-mean-zero": [R, "A = WeightedMean(InFieldNames = [R, B], Weights = [2, 0])", "B = Copy(InFieldName = A)"],
+        "fuzzy-weight-zero": [R, "F = CvtToFuzzy(InFieldName = R)", "X = FuzzyWeightedUnion(InFieldNames = [F, Y], Weights = [1, 0])", "Y = FuzzyNot(InFieldName = X)"],
+        "select-one-of-two": [R, "F = CvtToFuzzy(InFieldName = R)", "X = FuzzySelectedUnion(InFieldNames = [F, Y], TruestOrFalsest = Truest, NumberToConsider = 1)", "Y = FuzzyNot(InFieldName = X)"],
     }
     cases = []
     for name, lines in graphs.items():
